@@ -457,6 +457,9 @@ def dry_runs():
         yield 'O2_read_at_eof', dict(S='a\r\nb', c=2, how=how, size=2)
 
 
+PROBES = ['expect_core']      # representation probes (harness/probes.py) this harness depends on
+
+
 MANIFEST_ENTRY = {
     'level_text': 'Bounded symbolic verification of the real expect_loop/eof/timeout/errored code through every '
                   'entry point (expect, expect_exact, expect_list, expect_loop, read, readline): symbolic pending '
